@@ -58,7 +58,7 @@ var listed = []string{
 var widened = []string{
 	"bitmap.Get", "bitmap.Get1", "bitmap.SafeGet", "bitmap.SafeGet1",
 	"bitmap.IndexRank64", "bitmap.IndexRank128", "bitmap.IndexSelect32", "bitmap.IndexSelect32R64",
-	"bitmap.Of", "bitmap.OfMany", "bitmap.Join",
+	"bitmap.Of", "bitmap.OfMany", "bitmap.Join", "bitmap.Fmt",
 	"bmtree.Height", "bmtree.NewPath", "bmtree.PathOf", "bmtree.PathsOf", "bmtree.PathBits", "bmtree.PathMask",
 	"bmtree.PathHeight", "bmtree.PathLen", "bmtree.PathStr",
 	"bitstr.New", "bitstr.Len", "sigbits.New",
@@ -80,6 +80,8 @@ var readOnlyExternal = []string{
 	"strings.", "strconv.", "math/bits.", "math.", "unicode/utf8.",
 	"fmt.Sprintf", "fmt.Sprint", "fmt.Sprintln", "fmt.Errorf",
 	"runtime.KeepAlive",
+	// reflection used for READING a value (bitmap.Fmt): not Set*, not Addr, not Elem of a pointer
+	"reflect.ValueOf", "reflect.TypeOf", "reflect.Value.Kind", "reflect.Value.Len", "reflect.Value.Index", "reflect.Value.Interface",
 	"github.com/openacid/must", // the contract package: (enabled|disabled).Be methods compare their arguments
 }
 
@@ -589,8 +591,8 @@ func (a *analysis) callResultRoots(c *ssa.Call) rootset {
 }
 
 func allowListed(fn *ssa.Function) bool {
-	n := fn.String() // e.g. bytes.Compare, (*strings.Builder).WriteString, (github.com/openacid/must/enabled.be).True
-	n = strings.TrimLeft(n, "(*")
+	// e.g. bytes.Compare, strings.Builder.WriteString, github.com/openacid/must/enabled.be.True, reflect.Value.Kind
+	n := short(fn.String())
 	for _, p := range readOnlyExternal {
 		if strings.HasPrefix(n, p) {
 			return true
